@@ -529,7 +529,7 @@ _RESETTERS = []
 def discover_state():
     """Find every piece of module-level and class-level state in the loaded mingus modules: memo tables (reset to
     empty = cold), the fft position memory, class-level mutable defaults, and - generically - every other
-    module-level dict/list/set (snapshot, restored in place when its size changed) and every module-level scalar
+    module-level dict/list/set (snapshot, restored in place when it no longer equals the snapshot) and every module-level scalar
     or tuple (restored when rebound).  A memo table added by a change to the repo is therefore reset between paths
     like the known ones, and the warm/cold claims (vf.claim.warm_cold) can put it into its initial state."""
     import copy
@@ -574,6 +574,26 @@ def ensure_state():
 
 
 def reset_state():
+    """put every discovered piece of state back (harness bookkeeping: runs outside the symbolic tracer)"""
+    from vf import claim as _c
+
+    if _c._MODE["symbolic"]:
+        from crosshair.core_and_libs import NoTracing
+
+        with NoTracing():
+            _reset_state()
+    else:
+        _reset_state()
+
+
+def _differs(obj, snap):
+    try:
+        return bool(obj != snap)
+    except BaseException:  # noqa - an entry that cannot be compared concretely is leaked state: restore
+        return True
+
+
+def _reset_state():
     import copy
 
     for owner, attr, kind, init in _RESETTERS:
@@ -588,7 +608,7 @@ def reset_state():
             obj, n, snap = init
             if getattr(owner, attr, obj) is not obj:
                 setattr(owner, attr, obj)
-            if len(obj) != n:
+            if len(obj) != n or _differs(obj, snap):
                 fresh = copy.deepcopy(snap)
                 if type(obj) is list:
                     obj[:] = fresh
@@ -597,7 +617,7 @@ def reset_state():
                     obj.update(fresh)
         else:
             cur = getattr(owner, attr)
-            if cur != init:
+            if len(cur) != len(init) or _differs(cur, init):
                 if type(cur) is list:
                     cur[:] = copy.deepcopy(init)
                 else:
